@@ -5,6 +5,7 @@ consumes one decision; the function is re-executed once per decision vector, so 
 Loops are cut at the sidecar invariant; calls are replaced by the callee's contract (never its body).
 """
 import ast
+import os
 import collections
 
 import z3
@@ -338,6 +339,24 @@ class Exec(ExprMixin, StmtMixin, CallMixin):
         return self.obls
 
     def run_path(self, st):
+        try:
+            self.run_path_(st)
+        except OutsideSubset:
+            # a construct without encoding matters only if the path that reaches it is feasible: when the hypotheses collected so
+            # far (preconditions, invariants, callee postconditions) are contradictory, the path is dead under this contract
+            s = z3.Solver()
+            s.set('timeout', int(os.environ.get('PYVC_DEAD_MS', '4000')))
+            for h in list(self.hyp_axioms) + list(st.pc):
+                s.add(h)
+            r = s.check()
+            if os.environ.get('PYVC_DEAD_DUMP'):
+                open(os.environ['PYVC_DEAD_DUMP'], 'w').write(s.to_smt2())
+            if r == z3.unsat:
+                self.exits['dead-branch'] += 1
+                return
+            raise
+
+    def run_path_(self, st):
         ct = self.ct
         try:
             out = self.exec_block(self.body, st)
@@ -357,6 +376,13 @@ class Exec(ExprMixin, StmtMixin, CallMixin):
             result = out[1]
         else:
             result = NONE_V
+        if ct.returns == NONE and kind == 'return' and isinstance(result, SV) and result.sort != NONE and result.sort != VAL and not is_ref(result.sort):
+            # the contract says the function returns None; an exit that returns a container / number / string must be unreachable
+            # under its precondition: a named obligation (goal False under the path condition), not a silent pruning
+            self.exits['unreachable-exit'] += 1
+            self.oblige(st, 'result-is-none', 'exit-returning-%s-unreachable' % type(result.sort).__name__, z3.BoolVal(False),
+                        'the exit that returns a value of sort %s is unreachable' % (result.sort,), where='return')
+            return
         self.exits['normal'] += 1
         self.covers.append(('normal-exit-reachable', list(st.pc)))
         self.apply_ghost_exit(st, result)
